@@ -456,8 +456,13 @@ func run(p *kernel.Plan) (res *kernel.Result) {
 	if perr != nil {
 		return res.Fail("C15/wire-frame-invalid", "%v", perr)
 	}
-	if used != len(wire) && !closedByCloser {
-		return res.Fail("C15/wire-partial-frame", "%d bytes after the last whole frame although the connection was not closed", len(wire)-used)
+	res.Stat("transport_write_timeouts_foreign_deadline", int64(eConn.ForeignTimeouts))
+	if used != len(wire) && !closedByCloser && (eConn.Timeouts == 0 || eConn.ForeignTimeouts > 0) {
+		// (a transport write that timed out on the deadline its own call armed, in
+		// the middle of a frame, leaves a torn frame behind as on a real socket - a
+		// transport fault, the connection is unusable afterwards; a write cut short
+		// by the deadline of ANOTHER call is a frame torn by the interleaving)
+		return res.Fail("C15/wire-partial-frame", "%d bytes after the last whole frame although the connection was not closed (transport write timeouts: %d, of them under another call's deadline: %d)", len(wire)-used, eConn.Timeouts, eConn.ForeignTimeouts)
 	}
 	// frame boundaries vs transport writes: a write that starts inside a frame
 	// must come from the task that wrote the frame's beginning
